@@ -179,7 +179,7 @@ def run_case(ctx, rng, index, casedir):
                 planned["worker_delays"], planned["parent_delays"] = survivors_plan(rng, -(-n // b), scale)
             out = os.path.join(casedir, f"out_{kind}.gaf")
             wit = {"config": {"records": n, "batch": b, "cores": c}, "plan": planned}
-            run = RR.run_driver(casedir, f"f_{kind}", ["realign", w.gaf, w.gfa, w.fasta, "-o", out, "-c", str(c)], planned, b, timeout=60)
+            run = RR.run_driver(casedir, f"f_{kind}", ["realign", w.gaf, w.gfa, w.fasta, "-o", out, "-c", str(c)], planned, b, timeout=150)
             evals += 1
             sit["executions"] += 1
             sit["kind:" + kind] += 1
@@ -202,7 +202,7 @@ def run_case(ctx, rng, index, casedir):
         planned = {"cores": c, "timeout_scale": scale, "faults": [f1, f2]}
         planned["worker_delays"], planned["parent_delays"] = survivors_plan(rng, nw, scale)
         out = os.path.join(casedir, "out_double.gaf")
-        run = RR.run_driver(casedir, "double", ["realign", w.gaf, w.gfa, w.fasta, "-o", out, "-c", str(c)], planned, b, timeout=60)
+        run = RR.run_driver(casedir, "double", ["realign", w.gaf, w.gfa, w.fasta, "-o", out, "-c", str(c)], planned, b, timeout=150)
         evals = 1
         sit["executions"] += 1
         sit["double_fault_executions"] += 1
@@ -246,7 +246,7 @@ def run_case(ctx, rng, index, casedir):
         planned["worker_delays"], planned["parent_delays"] = survivors_plan(rng, -(-n // b), scale)
         planned["worker_delays"]["*:before_sentinel"] = 0.02
         out = os.path.join(casedir, "out_async.gaf")
-        run = RR.run_driver(casedir, "async", ["realign", w.gaf, w.gfa, w.fasta, "-o", out, "-c", str(c)], planned, b, timeout=60, on_poll=on_poll)
+        run = RR.run_driver(casedir, "async", ["realign", w.gaf, w.gfa, w.fasta, "-o", out, "-c", str(c)], planned, b, timeout=150, on_poll=on_poll)
         evals = 1
         sit["executions"] += 1
         if state["victim"] is not None:
@@ -295,14 +295,14 @@ def run_case(ctx, rng, index, casedir):
                         except (OSError, ValueError):
                             pass
             fault = {"worker": 0, "point": "in_pipe_write", "kind": "SIGKILL"}
-            run = RR.run_driver(casedir, "pipe", ["realign", w.gaf, w.gfa, w.fasta, "-o", out, "-c", "1"], planned, 4, timeout=25, on_poll=on_poll)
+            run = RR.run_driver(casedir, "pipe", ["realign", w.gaf, w.gfa, w.fasta, "-o", out, "-c", "1"], planned, 4, timeout=45, on_poll=on_poll)
             if state["killed"]:
                 run["events"].append({"ev": "fault_fire", "t": 0, "pid": 0, "role": "supervisor"})
         else:
             planned = {"cores": 2, "timeout_scale": 0.2, "fault": {"worker": 0, "point": "holding_writer_lock", "kind": "SIGKILL"},
                        "worker_delays": {"1:before_put_0": 0.3}}
             fault = planned["fault"]
-            run = RR.run_driver(casedir, "lock", ["realign", w.gaf, w.gfa, w.fasta, "-o", out, "-c", "2"], planned, 2, timeout=25)
+            run = RR.run_driver(casedir, "lock", ["realign", w.gaf, w.gfa, w.fasta, "-o", out, "-c", "2"], planned, 2, timeout=45)
         evals = 1
         sit["executions"] += 1
         wit = {"variant": variant, "record_bytes": big, "killed": state["killed"]}
